@@ -209,6 +209,7 @@ type run struct {
 }
 
 type realFacts struct {
+	pnF, pnG *int64 // the caller's own pointers to numbers: must stay the same objects
 	f, g *grl.Fact
 	ctx  ast.IDataContext
 	has  map[string]bool
@@ -225,12 +226,14 @@ func (rf *realFacts) overwrite(f *grl.Facts, hooks *grl.Hooks) error {
 				return fmt.Errorf("fact F absent in the first fact set")
 			}
 			*rf.f = *(v.(*grl.Fact))
+			rf.pnF = rf.f.PN
 			rf.f.Bind("F", hooks)
 		case "G":
 			if rf.g == nil {
 				return fmt.Errorf("fact G absent in the first fact set")
 			}
 			*rf.g = *(v.(*grl.Fact))
+			rf.pnG = rf.g.PN
 			rf.g.Bind("G", hooks)
 		case "J":
 			if err := rf.ctx.AddJSON("J", f.J); err != nil {
@@ -243,6 +246,17 @@ func (rf *realFacts) overwrite(f *grl.Facts, hooks *grl.Hooks) error {
 		}
 	}
 	return nil
+}
+
+// PointerReplaced reports a pointer-to-number field that no longer is the object the caller put there.
+func (rf *realFacts) PointerReplaced() string {
+	if rf.f != nil && rf.f.PN != rf.pnF {
+		return "F.PN"
+	}
+	if rf.g != nil && rf.g.PN != rf.pnG {
+		return "G.PN"
+	}
+	return ""
 }
 
 // State reads the caller-visible fact state from the real objects.
@@ -294,6 +308,8 @@ func (r *run) violate(oracle, msg string) {
 	if len(r.faults) > 0 && prop != "C14" && prop != "C15" && oracle != "C14.disturbed-after-fault" {
 		f := r.faults[0]
 		r.violate("C14.disturbed-after-fault", fmt.Sprintf("after the %s injected at event %d (%s of %s) the run diverges from the model: %s: %s", f.kind, f.seq, f.phase, f.rule, oracle, msg))
+	} else if r.res.Probes["eval.cond-error"] > 0 && prop != "C14" && prop != "C15" && oracle != "C14.disturbed-after-fault" {
+		r.violate("C14.disturbed-after-fault", fmt.Sprintf("after a condition failed to evaluate earlier in this run (a natural fault), the run diverges from the model: %s: %s", oracle, msg))
 	}
 }
 
@@ -565,12 +581,14 @@ func prepareFacts(f *grl.Facts, hooks *grl.Hooks) (*realFacts, error) {
 		switch k {
 		case "F":
 			rf.f = v.(*grl.Fact)
+			rf.pnF = rf.f.PN
 			rf.f.Bind("F", hooks)
 			if err := rf.ctx.Add("F", rf.f); err != nil {
 				return nil, err
 			}
 		case "G":
 			rf.g = v.(*grl.Fact)
+			rf.pnG = rf.g.PN
 			rf.g.Bind("G", hooks)
 			if err := rf.ctx.Add("G", rf.g); err != nil {
 				return nil, err
@@ -612,9 +630,14 @@ func RunOn(sc *core.Scenario, kb *ast.KnowledgeBase, res *Result) {
 // Handle is a prepared run whose hooks the caller routes itself (used by the concurrency
 // simulation, where several runs are alive at once and a dispatcher owns the global hooks).
 type Handle struct {
-	r  *run
-	kb *ast.KnowledgeBase
+	r   *run
+	kb  *ast.KnowledgeBase
+	eng *engine.GruleEngine // optional: an engine value supplied (and possibly shared) by the caller
 }
+
+// SetEngine makes the run use the caller's engine value instead of a private one (the scenario must
+// then use zero listeners and the engine's own MaxCycle).
+func (h *Handle) SetEngine(e *engine.GruleEngine) { h.eng = e }
 
 func (h *Handle) Order(site string, keys []string) []string { return h.r.order(site, keys) }
 func (h *Handle) Visit(site, key string)                     { h.r.visit(site, key) }
@@ -661,6 +684,9 @@ func (h *Handle) Execute() {
 	eng := &engine.GruleEngine{MaxCycle: sc.Knobs.MaxCycle, ReturnErrOnFailedRuleEvaluation: sc.Knobs.RetErr}
 	for i := 0; i < nl; i++ {
 		eng.Listeners = append(eng.Listeners, &seams.Listener{ID: i, Sink: r})
+	}
+	if h.eng != nil {
+		eng = h.eng
 	}
 	ctx := &simCtx{Context: context.Background(), r: r}
 	if sc.CancelAt == -1 {
